@@ -79,10 +79,13 @@ Definition unify_st (s : st) (a b : term) : list st * bool :=
 
 Definition max_nxt (s : st) (l : list st) : nat := fold_left (fun m x => Nat.max m (nxt x)) l (nxt s).
 
-(* findall collects one instance of the template per answer.  The variables created while an answer was
-   computed (cells >= lo = the counter at the call) are different objects for different answers, although
-   the model reuses cell numbers in different branches of the search; the collected instances therefore
-   get these cells moved to pairwise disjoint fresh ranges [base_j, base_j + (nxt x_j - lo)), base_1 = lo. *)
+(* findall collects one COPY of the instance of the template per answer (engine.py YP.findall: copy_term(template, {}),
+   since the repair D27): every unbound variable of an instance is replaced by a new variable, consistently within
+   the instance, so different instances share no variable with each other, with the caller or with the goal.
+   In the model the copy of answer x_j moves every cell c of the dereferenced template to base_j + c, where
+   base_1 = the counter at the call and base_(j+1) = base_j + nxt x_j: an injective renaming onto a range of cells
+   that exist nowhere else (collect with lo = 0).  The general form with a threshold lo (cells below lo stay, the
+   model of the code before D27) is kept because the lemmas are stated for every lo. *)
 Fixpoint shift_term (lo d : nat) (t : term) : term :=
   match t with
   | TVar v => if Nat.leb lo v then TVar (v + d) else t
@@ -129,7 +132,7 @@ Definition builtin (name : str) (args : list term) (s : st) : option (list st * 
     | [t; g; l] =>
         Some (let '(xs, e) := call_goal g [] s in
               if e then ([], true) else
-              let '(es, b) := collect (nxt s) (nxt s) t xs in
+              let '(es, b) := collect 0 (nxt s) t xs in
               unify_st {| sto := sto s; nxt := b |} l (mk_list es))
     | _ => None end
   else None.
